@@ -33,11 +33,11 @@ RU = ["-", "not"]
 
 # name -> (alphabet, reduced operator sets?, max depth, leaf counts, outcome length, variant length)
 FAMILIES_QUICK = {
-    "d1_full_k123": ("A_FULL", False, 1, (1, 2, 3), 3, 2),
-    "d1_mid_k4": ("A_MID", False, 1, (4,), 3, 2),
-    "d2_red_k12": ("A_RED", False, 2, (1, 2), 3, 2),
+    # small on purpose (<= ~3 CPU-minutes for the whole quick tier); every family is contained in a thorough one
+    "d1_mid_k123": ("A_MID", False, 1, (1, 2, 3), 3, 2),
+    "d1_red_k4": ("A_RED", False, 1, (4,), 3, 2),
+    "d2_min_k12": ("A_MIN", False, 2, (1, 2), 2, 1),
     "d2_two_k3": ("A_TWO", True, 2, (3,), 1, 1),
-    "d2_two_k4": ("A_TWO", True, 2, (4,), 1, 1),
     "d3_two_k12": ("A_TWO", True, 3, (1, 2), 1, 1),
 }
 FAMILIES_THOROUGH = {
@@ -49,11 +49,11 @@ FAMILIES_THOROUGH = {
     "d4_two_k12": ("A_TWO", True, 4, (1, 2), 1, 1),
 }
 # base strings of the single-token mutation: (alphabet, reduced, depth, leaf counts)
-MUT_BASE_QUICK = [("A_MIN", False, 1, (1, 2)), ("A_TWO", True, 2, (1, 2))]
+MUT_BASE_QUICK = [("A_TINY", False, 1, (1, 2))]
 MUT_BASE_THOROUGH = [("A_RED", False, 1, (1, 2)), ("A_MIN", False, 1, (3,)), ("A_TWO", True, 2, (1, 2))]
-PAREN_QUICK = [("A_MIN", False, 1, (1, 2, 3)), ("A_TWO", True, 2, (2,))]
+PAREN_QUICK = [("A_MIN", False, 1, (1, 2)), ("A_TWO", True, 2, (2,))]
 PAREN_THOROUGH = [("A_RED", False, 1, (1, 2, 3)), ("A_TWO", True, 2, (2, 3))]
-INSTR_QUICK = [("A_MIN", False, 1, (1, 2, 3))]
+INSTR_QUICK = [("A_MIN", False, 1, (1, 2))]
 INSTR_THOROUGH = [("A_RED", False, 1, (1, 2, 3))]
 
 HOSTILE_TOKENS = [
@@ -289,7 +289,7 @@ def _families(tier):
 
 
 def _nchunks(tier, name):
-    big = {"d1_full_k123": 32, "d2_two_k4": 32, "d1_full_k1234": 48, "d2_full_k12": 48, "d2_min_k3": 32, "d4_two_k12": 48}
+    big = {"d1_mid_k123": 8, "d2_two_k4": 32, "d1_full_k1234": 48, "d2_full_k12": 48, "d2_min_k3": 32, "d4_two_k12": 48}
     return big.get(name, 8)
 
 
@@ -299,16 +299,16 @@ def _items(tier):
         n = _nchunks(tier, name)
         for c in range(n):
             items.append(("gram", name, c, n))
-    n = 16 if tier == "quick" else 64
+    n = 4 if tier == "quick" else 64
     for c in range(n):
         items.append(("mut", c, n))
-    for c in range(4):
-        items.append(("paren", c, 4))
+    for c in range(2 if tier == "quick" else 4):
+        items.append(("paren", c, 2 if tier == "quick" else 4))
     items.append(("corpus",))
-    for c in range(4 if tier == "quick" else 12):
-        items.append(("deep", c, 4 if tier == "quick" else 12))
-    for c in range(4):
-        items.append(("instr", c, 4))
+    for c in range(1 if tier == "quick" else 12):
+        items.append(("deep", c, 1 if tier == "quick" else 12))
+    for c in range(1 if tier == "quick" else 4):
+        items.append(("instr", c, 1 if tier == "quick" else 4))
     items.append(("e2e",))
     return items
 
@@ -723,19 +723,30 @@ def report_eval(ctx, src, variant, values, via, tree=None, origin="grammar"):
                 vloc = vl
         except Exception:
             pass
-    subname = {"rejected": "grammar_rejected", "construct_error": "construction_raises_other", "mismatch": "value_mismatch"}[vloc[0]]
-    if vloc[0] == "mismatch" and "raises" in vloc[1]:
-        subname = "exception_mismatch"
-    sig = {"check": "C20", "sub": subname, "node": node, "via": via}
-    if vloc[0] == "mismatch":
-        # result classes of the smallest disagreeing sub-expression (stable across the contexts it occurs in)
+    # signature = (kind of the smallest deviating sub-expression, kind of deviation): one root cause gives
+    # one to three signatures, whatever the operand shapes and outcome types it is reached through
+    if vloc[0] == "rejected":
+        sig = {"check": "C20", "sub": "grammar_rejected", "node": node}
+    elif vloc[0] == "construct_error":
+        sig = {"check": "C20", "sub": "construction_raises_other", "node": node}
+    else:
         x = build_x(variant, values)
-        sig["py"] = _result_class(py_eval(compile(loc_src.strip(), "<e>", "eval"), x))
+        p_ = py_eval(compile(loc_src.strip(), "<e>", "eval"), x)
         try:
-            sig["pq"] = _result_class(pq_eval(_construct(loc_src, via), x))
+            q_ = pq_eval(_construct(loc_src, via), x)
         except Exception:
-            sig["pq"] = "?"
-        sig["outcomes"] = "numpy" if variant.startswith("np") else "python"
+            q_ = (False, "?")
+        if p_[0] and q_[0]:
+            dev = "value"
+        elif p_[0]:
+            dev = "piquasso_raises_only"
+        elif q_[0]:
+            dev = "python_raises_only"
+        else:
+            dev = "exception_type"
+        sig = {"check": "C20", "sub": "semantics", "node": node, "deviation": dev}
+    if via != "Expression":
+        sig["via"] = via
     case = {"kind": "eval", "src": src, "variant": variant, "values": list(values), "via": via, "origin": origin}
     ctx.violation(sig, case, "%s(%r) with x=%s%s: %s" % (via, src, variant, tuple(values), v1[1]))
     return True
@@ -951,7 +962,7 @@ def _w_gram(ctx, item):
                 q = pq_eval(expr, x)
                 strict = variant == "int" or variant == "float"
                 if not (agree(p, q, True) if strict else agree_np(src, code, x, q, cache, p)):
-                    lab = (G.node_label(tree), _result_class(p), _result_class(q))
+                    lab = (G.node_label(tree), p[0], q[0])
                     if lab not in reported:
                         reported.add(lab)
                         if not report_eval(ctx, src, variant, vals, "Expression", tree=tree, origin=name):
